@@ -27,7 +27,7 @@ def build(tier):
                     'one evaluation of a penalty / augmented-Lagrangian function is exactly one evaluation of the objective with the caller\'s own point and gradient buffer (back end B on penalty_vgrad<op> x2, augmented_lagrangian_function_t::do_vgrad, and the two forwarding do_vgrad bodies of src/function/penalty.cpp): the link between the objective\'s and the penalty function\'s counters that the budget ledger uses',
                     'budget of the constrained solvers, per outer iteration: exactly one inner solve per outer iteration (at most max_outer_iters of them), every one with the OUTER solver::max_evals (made once, only epsilon is changed afterwards), each costing the objective fcalls+gcalls < max_evals + 2*NV_LS_MAX_EVALS + 2 (one outer iteration of the inner solver), plus at most one evaluation of the objective by the outer loop itself: fcalls + gcalls <= 2 + n*(max_evals + 2*NV_LS_MAX_EVALS + 3) after n outer iterations (ghost ledger in CBMC + induction lemma over Int); the total is NOT bounded by max_evals: the code hands the full max_evals to every inner solve',
                     'f <= f0 for gd / cgd-* / lbfgs / quasi-Newton with an Armijo-exit line search (backtrack, LeMarechal, More-Thuente, Fletcher; ghost kind flag nv_ls_armijo_exit, false for CG_DESCENT): (i) lemmas over the reals: Armijo (the formula C07 proves equal to has_armijo) with t > 0, c1 > 0 and a descent direction is a strict decrease, the approximate Armijo rule admits at most epsilon per step, chain induction; (ii) lsearchk_t::get / the virtual do_get of C07 export "success => Armijo evaluated true on the returned state against the entry state with the returned step and c1" under the kind flag (C07 re-proved); (iii) refinement lemma: that contract plus the imported facts gives "success => new value finite and <= value on entry", lsearch_t::get passes it on; (iv) loop contracts of the four bodies: every accepted iterate (cstate and pstate) is finite and <= f(x0) (ghost nv_ls_f0 recorded when the first state is built); returned state with status max_iters => fx <= f(x0)',
-                    'KNOWN FINDING (refuted on the unchanged library, native demonstration replay/C02_failed_lsearch_converged.cpp, specs/C02/FINDING_failed_lsearch_converged.md): status converged => fx <= f(x0) fails for all four bodies: a FAILED line search leaves the state at its last trial point and solver_t::done(state, iter_ok = false, converged = true) reports converged (smooth quartic, backtracking with max_iterations = 1: converged at a local maximum 2.34 above the start)',
+                    'returned state with status converged => fx <= f(x0) for the same four bodies, through the strengthened contract of solver_t::done: status converged => iter_ok (and valid), !iter_ok => failed, converged && iter_ok && valid => converged.  REPAIRED DEFECT (specs/C02/FINDING_failed_lsearch_converged.md, `fixed:` line in known_findings.txt): before the repair `(converged && step_ok)` a FAILED line search left the state at its last trial point and done(state, iter_ok = false, converged = true) reported converged (smooth quartic, backtracking with max_iterations = 1: converged at a local maximum 2.34 above the start; replay/C02_failed_lsearch_converged.cpp); on the unrepaired solver.cpp solver_done.postcondition.6 / .7 are refuted (the bodies use done() by contract)',
                     'f <= f0 mechanism of the gradient sampling solvers, over the reals (SMT): lbfgs_preconditioner_t::update(sampler, state, epsilon) leaves W and H positive definite (restart from (1/miu) I, miu I with miu > 0; a curvature pair is admitted only with d.y >= gamma*epsilon > 0), update(alpha) keeps miu > 0, the identity preconditioner is never modified; gsample::lsearch_t::step with a positive semi-definite H moves the state only to a point of strictly smaller value (both loops, deterministic function along the ray)',
                     'composition inside base_solver_gs_t::do_minimize (back end B over the reals, real body, instantiation <fixed_sampler_t, lbfgs_preconditioner_t>): the sampling radius handed to precond.update(sampler, state, epsilonk) is > 0 at every call (epsilon0 > 0 and theta_epsilon in (0, 1] by their registered domains, read from the constructor on every run; loop invariant epsilonk > 0), and lsearch.step is handed H() of the very preconditioner object updated with that radius on every path of the same iteration; no other statement of the body moves the state',
                     'f <= f0 mechanism of RQB: csearch_t::search reports descent_step / cutting_plane_step / null_step only for a trial that passed the corresponding tests in this call (sufficient descent f(centre) - fy >= m1*delta for the serious steps), and solver_rqb_t::do_minimize moves its state only to such a trial of the last search'],
@@ -76,4 +76,10 @@ def replay(rp):
     rc, so, se = replaylib.run_driver(exe, [])
     out['runs'].append({'exit': rc, 'output': so.strip()[:3000]})
     out['reproduced'] = rc == 1
+    # "a failed iteration is never converged" (solver_done postconditions 6 / 7, f <= f0 of the four line-search bodies): smooth quartic,
+    # backtracking with max_iterations = 1: the left-over trial state of the failed line search is a local maximum above f(x0)
+    exe = replaylib.build_with_library('replay/C02_failed_lsearch_converged.cpp', 'C02_failed_lsearch_converged')
+    rc, so, se = replaylib.run_driver(exe, [])
+    out['runs'].append({'driver': 'C02_failed_lsearch_converged', 'exit': rc, 'output': so.strip()[:3000]})
+    out['reproduced'] = out['reproduced'] or rc == 1
     return out
